@@ -244,7 +244,26 @@ func (c *c19) newLut(kind string) *lut {
 		}
 		c.scrat = append(c.scrat, dir)
 		l.root = dir
-		l.loader = jet.NewOSFileSystemLoader(dir)
+		root := dir
+		switch c.t.Choose(6) {
+		case 3:
+			root = dir + "/"
+		case 4:
+			root = filepath.Join(dir, "..", filepath.Base(dir)) + "/."
+		case 5:
+			// a root relative to the working directory
+			if c.cwd == "" {
+				c.cwd, _ = os.Getwd()
+				if err := os.Chdir(dir); err == nil {
+					root = []string{".", "./"}[c.t.Choose(2)] // ("" would be the file-system root: Join("", "/a") is "/a")
+				}
+			}
+		}
+		if root != dir {
+			c.hist = append(c.hist, fmt.Sprintf("NewOSFileSystemLoader(%q)", strings.Replace(root, dir, "<dir>", 1)))
+			c.env.Stat("probe:os_loader_root_spelled_unusually", 1)
+		}
+		l.loader = jet.NewOSFileSystemLoader(root)
 	case "httpdir":
 		// httpfs over a real http.Dir; one root spelling in three is "" (documented as "."), reached by
 		// changing the working directory for the duration of the run
@@ -255,10 +274,8 @@ func (c *c19) newLut(kind string) *lut {
 		c.scrat = append(c.scrat, dir)
 		l.root = dir
 		root := dir
-		if c.t.Choose(3) == 2 {
-			if c.cwd == "" {
-				c.cwd, _ = os.Getwd()
-			}
+		if c.t.Choose(3) == 2 && c.cwd == "" {
+			c.cwd, _ = os.Getwd()
 			if err := os.Chdir(dir); err == nil {
 				root = ""
 				c.hist = append(c.hist, `http.Dir("")`)
@@ -302,6 +319,11 @@ func (c *c19) edit(l *lut) {
 	p := c19Path(t)
 	c.nVer++
 	content := fmt.Sprintf("%s:%s#%d", l.kind, p, c.nVer)
+	if t.Choose(10) == 9 {
+		// a long file: read in several chunks through every wrapper
+		content += ":" + strings.Repeat("p", []int{700, 5000, 70000}[t.Choose(3)])
+		c.env.Stat("probe:file_longer_than_512_bytes", 1)
+	}
 	switch l.kind {
 	case "inmem":
 		sp := c19Spelling(t, p)
@@ -350,6 +372,79 @@ func (c *c19) edit(l *lut) {
 			c.hist = append(c.hist, "simfs.removeAll("+p+")")
 		}
 	}
+}
+
+// heldReader: Open(p) on the in-memory loader, then the entry is stored again (other bytes, shorter,
+// longer or of the same length) or deleted, and only then the reader is drained. What it yields must
+// be one complete stored version - the one present at Open, or a later one - never bytes that were
+// not stored under p as a whole.
+func (c *c19) heldReader(l *lut) {
+	var files []string
+	for f := range l.model.files {
+		files = append(files, f)
+	}
+	sort.Strings(files)
+	if len(files) == 0 {
+		return
+	}
+	t := c.t
+	p := files[t.Choose(len(files))]
+	old := l.model.files[p]
+	rc, err := l.mem.Open(c19Spelling(t, p))
+	if err != nil {
+		c.env.Violate("contract", "inmem:open-fails", "inmem.Open(%q) failed (%v) although the path is stored\nhistory: %s", p, err, strings.Join(c.hist, " "))
+		return
+	}
+	versions := []string{old}
+	n := t.Range(1, 2)
+	for i := 0; i < n; i++ {
+		c.nVer++
+		var content string
+		switch t.Choose(4) {
+		case 0: // shorter
+			content = fmt.Sprintf("i#%d", c.nVer)
+		case 1: // the same length, other bytes
+			content = fmt.Sprintf("%d", c.nVer)
+			for len(content) < len(old) {
+				content += "~"
+			}
+			content = content[:len(old)]
+		case 2: // longer
+			content = old + fmt.Sprintf("+longer#%d", c.nVer)
+		case 3:
+			l.mem.Delete(c19Spelling(t, p))
+			delete(l.model.files, p)
+			c.hist = append(c.hist, fmt.Sprintf("inmem.Delete(%q) while a reader is open", p))
+			continue
+		}
+		l.mem.Set(c19Spelling(t, p), content)
+		l.model.files[p] = content
+		versions = append(versions, content)
+		c.hist = append(c.hist, fmt.Sprintf("inmem.Set(%q) while a reader is open", p))
+	}
+	data, rerr := io.ReadAll(rc)
+	rc.Close()
+	c.nQ++
+	c.env.Stat("probe:reader_drained_after_the_entry_was_stored_again", 1)
+	c.env.Event("held reader %s -> %q err=%v", p, data, rerr)
+	if rerr != nil {
+		c.env.Violate("contract", "inmem:held-reader", "a reader opened on %q failed after the entry was stored again: %v\nhistory: %s", p, rerr, strings.Join(c.hist, " "))
+		return
+	}
+	for _, v := range versions {
+		if string(data) == v {
+			return
+		}
+	}
+	c.env.Violate("contract", "inmem:held-reader", "a reader opened on %q and drained after the entry was stored again yielded %q, which was never stored as a whole (versions: %q)\nhistory: %s", p, sim.Clip(string(data), 200), clipAll(versions), strings.Join(c.hist, " "))
+}
+
+func clipAll(ss []string) []string {
+	out := make([]string, len(ss))
+	for i, s := range ss {
+		out[i] = sim.Clip(s, 80)
+	}
+	return out
 }
 
 // openOnly: Open(p) some time after an Exists(p) call, with edits in between. Judged against the
@@ -492,6 +587,10 @@ func RunC19(env *sim.Env) {
 				c.edit(l)
 				continue
 			}
+			if kind == "inmem" && t.Choose(6) == 5 {
+				c.heldReader(l)
+				continue
+			}
 			p := c19Path(t)
 			// bias queries towards paths that exist in some form
 			if t.Choose(3) > 0 {
@@ -588,6 +687,24 @@ func RunC19(env *sim.Env) {
 			switch {
 			case t.Choose(5) < 2:
 				c.edit(luts[t.Choose(len(luts))])
+			case inner == nil && t.Choose(12) == 11:
+				// ClearLoaders, then some of the same loader instances come back in another order
+				m.ClearLoaders()
+				perm := append([]*lut(nil), luts...)
+				for i := len(perm) - 1; i > 0; i-- {
+					j := t.Choose(i + 1)
+					perm[i], perm[j] = perm[j], perm[i]
+				}
+				k := t.Range(0, len(perm))
+				active = nil
+				for _, l := range perm[:k] {
+					m.AddLoaders(l.loader)
+					active = append(active, l)
+				}
+				// the loaders not added back are next in line for later AddLoaders calls
+				luts = append(append([]*lut(nil), active...), perm[k:]...)
+				c.hist = append(c.hist, fmt.Sprintf("ClearLoaders+AddLoaders(%d of %d, reordered)", k, len(perm)))
+				env.Stat("probe:multi_ClearLoaders_then_same_instances_added_again", 1)
 			case len(active) < len(luts) && t.Choose(6) == 5:
 				nl := luts[len(active)]
 				if inner != nil && t.Choose(2) == 1 {
